@@ -65,6 +65,18 @@ _ENGINE_ASSUME = ["the event stream's inbox order is the broadcast order (C01); 
                   "a subscriber stopping between the reachability test and the forward is a race outside the sequential model (it costs one dead letter, then the subscriber is dropped)"]
 
 PROPS = {
+    "C18": dict(lean_modules=["HW.Props.C18"],
+                streams=[dict(name="members", pkg="cluster", test="TestVerifMembers", shrink_key="snaps", timeout=1500)],
+                rule="members: a real Cluster/Agent actor on a real engine (fake Remoter, stub provider); seeded random histories of 1-5 snapshots over a universe of 5 members x 3 kinds "
+                     "(growing, shrinking, repeated, shuffled, duplicate entries, kind lists starting with an already known kind); Members()/HasKind through the public API, events through the real event stream "
+                     "with a sentinel barrier; everything sorted; non-trivial = >= 2 snapshots; distinct = distinct inputs",
+                assumptions=["every snapshot contains the observing node itself (the providers guarantee it)", "a member that stays keeps the Member object (and kinds) it joined with"]),
+    "C20": dict(lean_modules=["HW.Props.C20"],
+                streams=[dict(name="provider", pkg="cluster", test="TestVerifProvider", shrink_key="ops", timeout=1500)],
+                rule="provider: the real SelfManaged.Receive invoked (with the real Context and sender) from a wrapper actor for every message except Started (zeroconf is never started); seeded random histories of 1-8 "
+                     "handshakes / member lists / unreachable reports for members, non-members and repeated ones; agent reports captured by a recorder registered as the agent, replies by a fake Remoter; "
+                     "incarnation counter detects a crash-restart; non-trivial = >= 2 ops",
+                assumptions=["member hosts are pairwise distinct", "zeroconf announcement/discovery and the memberPing timer are not modelled"]),
     "C09": dict(lean_modules=["HW.Props.C09"], streams=[_ENGINE_STREAM], rule=_ENGINE_RULE, assumptions=_ENGINE_ASSUME, spec_relevant=r"FAIL:(C09|harness)"),
     "C12": dict(lean_modules=["HW.Props.C12"], streams=[_ENGINE_STREAM], rule=_ENGINE_RULE, assumptions=_ENGINE_ASSUME, spec_relevant=r"FAIL:(C12|harness)"),
     "C10": dict(lean_modules=["HW.Props.C10"], facts=True,
@@ -238,5 +250,21 @@ MANIFEST_TEXT = {
         design_ref="DESIGN.md section 4, C12",
         note="Trusted: Lean kernel; concurrent broadcasters reduce to inbox order (C01); Go map iteration order (forwards of one event are compared as sets).",
         technique="Lean 4 induction over the stream (membership iff last-op, count under Nodup) + history-level differential correspondence",
+    ),
+    "C18": dict(
+        text="Machine-checked for every previous view and every snapshot (growing, shrinking, repeated, duplicate entries): after handleMembers the member ids are exactly the snapshot's ids; join events = ids new minus old, "
+             "leave events = old minus new, each exactly once, none for stayers; HasKind(k) iff some member of the view advertises k (given the observing node is in every snapshot). Tied to the code by a real Cluster/Agent actor "
+             "driven through the public API (Members, HasKind, event stream).",
+        design_ref="DESIGN.md section 4, C18",
+        note="Trusted: Lean kernel; Go map iteration order (everything compared as sorted sets); request/response barrier (C11) and event-stream order (C12) are used by the harness.",
+        technique="Lean 4 set-level theorems over a list model of MemberSet + history-level differential correspondence through the public cluster API",
+    ),
+    "C20": dict(
+        text="Machine-checked: a handshake adds the peer, replies with the complete list and reports it; a member list adds every member in it; an unreachable report for a member's address removes exactly that member and "
+             "tells the agent; for a non-member address the handler is the identity (nothing changes, nobody is told). Tied to the code by invoking the real SelfManaged.Receive for every message (Started replaced so that "
+             "zeroconf never starts), with an incarnation counter that detects a crash-restart.",
+        design_ref="DESIGN.md section 4, C20",
+        note="Trusted: Lean kernel; distinct member hosts; zeroconf discovery, the ping timer and the event-stream child are not modelled.",
+        technique="Lean 4 theorems over a list model of the provider's MemberSet + history-level differential correspondence",
     ),
 }
